@@ -147,11 +147,17 @@ def evalDescendent : Option (Val N) → Option (Val N)
 
 /-! ### paths -/
 
-/-- Is the first step a variable, or a predicate on a variable? (eval.go evalPath) -/
-def firstStepIsVar : List (Node N) → Bool
-  | .var _ :: _ => true
-  | .predicate (.var _) _ :: _ => true
+/-- eval.go `startsWithVariable`: a variable, possibly filtered by predicates or sorted -/
+def startsWithVar : Node N → Bool
+  | .var _ => true
+  | .predicate e _ => startsWithVar e
+  | .sort e _ => startsWithVar e
   | _ => false
+
+/-- Is the first step a variable, possibly filtered or sorted? (eval.go evalPath) -/
+def firstStepIsVar : List (Node N) → Bool
+  | step :: _ => startsWithVar step
+  | [] => false
 
 def isConsNode : Node N → Bool
   | .array _ => true
